@@ -104,6 +104,7 @@ def _run_one(job):
         r.status = "inconclusive"
         r.detail = "internal error: %s\n%s" % (e, traceback.format_exc()[-1500:])
     r.wall_s = time.time() - t0
+    r.executed = sorted(eir.EXECUTED)
     return r
 
 
@@ -266,6 +267,7 @@ class Check:
                 "trusted_base": self.trusted,
                 "bounds": self.bounds,
                 "functions_encoded": sorted(set(sum([list(r.functions) for r in self.results], [])) | self.functions_encoded),
+                "ir_functions_interpreted": sorted(set(sum([list(getattr(r, "executed", [])) for r in self.results], []))),
                 "solver_queries": sum(r.queries for r in self.results),
                 "solver_time_s": round(sum(r.solver_s for r in self.results), 2),
                 "paths_explored": sum(r.paths for r in self.results),
